@@ -482,8 +482,8 @@ fn emit_fn(cx: &mut Ctx, specs: &mut Specs, em: &mut Emitter, ex: &Extract, file
             let mut pairs: Vec<(String, String)> = vec![];
             for (have, want) in names.iter().zip(pinned.iter()) { if let Some(h) = have { if h != want && want != "_" { pairs.push((h.clone(), want.clone())); } } }
             // only if the new names do not collide with anything else in the function
-            let body_txt = f.block.to_token_stream().to_string();
-            let collide = pairs.iter().any(|(_, w)| { let re = format!(" {} ", w); body_txt.contains(&re) || names.iter().any(|n| n.as_deref() == Some(w.as_str())) });
+            fn has_ident(ts: TokenStream, w: &str) -> bool { ts.into_iter().any(|t| match t { proc_macro2::TokenTree::Ident(i) => i == w, proc_macro2::TokenTree::Group(g) => has_ident(g.stream(), w), _ => false }) }
+            let collide = pairs.iter().any(|(_, w)| has_ident(f.block.to_token_stream(), w) || names.iter().any(|n| n.as_deref() == Some(w.as_str())));
             if !pairs.is_empty() && !collide {
                 let mut sig_ts = f.sig.to_token_stream(); let mut blk_ts = f.block.to_token_stream();
                 for (h, w) in &pairs { sig_ts = rename_ident(sig_ts, h, w); blk_ts = rename_ident(blk_ts, h, w); }
